@@ -215,8 +215,8 @@ def conditions(tier):
                                      encodes=ENC, bounds="1 operation", timeout=1800))
     if thorough:
         for f in ("txt", "sw"):
-            out.append(Condition(f"converge2/{f}/single", make_condition(converge(f, "single", [OPS, OPS]), 4, 10, 8),
-                                 about="two symbolic operations", encodes=ENC, bounds="2 operations", timeout=7200))
+            out.append(Condition(f"converge2/{f}/single", make_condition(converge(f, "single", [("enable-vector", "enable-group", "state"), ("assign", "client-write", "enable-group")]), 4, 10, 8),
+                                 about="two symbolic operations (3 x 3 kinds)", encodes=ENC, bounds="2 operations", timeout=3600))
     return out
 
 
